@@ -11,7 +11,7 @@
 //
 //   drv_vector --out F --mode exh1 --len L [--types int,double] [--kall 0|1]
 //   drv_vector --out F --mode exh2 --len L [--types ..] [--slice i --of n] [--setlike 0|1] [--vals3 0|1]
-//   drv_vector --out F --mode seq                    seq(from,to,by) over -6..6 x 1..4
+//   drv_vector --out F --mode seq                    seq(from,to,by) over -6..6 x 1..4 and steps 5..1000 around multiples
 //   drv_vector --out F --mode random --n N           random histories (length <= 64, -50..50, ties)
 //   drv_vector --out F --mode log --n N              log-domain reductions (pool with -inf, +-1e300, +inf)
 //   common: --skip Op1,Op2 (do not call these operations)
@@ -263,7 +263,8 @@ template<class T> struct Runner
     }
     OP("Seq")
     {
-      SKIP_UNLESS(k[2] >= 1 && k[2] < 100 && std::labs(k[0] - k[1]) / k[2] < static_cast<long>(LMAX));
+      SKIP_UNLESS(k[2] >= 1 && std::labs(k[0] - k[1]) / k[2] < static_cast<long>(LMAX));
+      FIT_UNLESS(std::labs(k[0]) <= 1000000 && std::labs(k[1]) <= 1000000 && k[2] <= 100000);
       oc = run([&] { r = jv(VT::seq(static_cast<T>(k[0]), static_cast<T>(k[1]), static_cast<T>(k[2]))).j(); });
     }
     OP("Fill") { oc = run([&] { VT::fill(x, s); }); }
@@ -297,6 +298,17 @@ template<class T> struct Runner
       for (const auto& e : x) ok = ok && divides(e, s);
       FIT_UNLESS(ok);
       oc = run([&] { x /= s; });
+    }
+    // the scalar is a reference to an element of the target vector itself (v -= v[i])
+    OP("AddEqE") { SKIP_UNLESS(k[0] >= 0 && static_cast<size_t>(k[0]) < x.size()); oc = run([&] { x += x[static_cast<size_t>(k[0])]; }); }
+    OP("SubEqE") { SKIP_UNLESS(k[0] >= 0 && static_cast<size_t>(k[0]) < x.size()); oc = run([&] { x -= x[static_cast<size_t>(k[0])]; }); }
+    OP("MulEqE") { SKIP_UNLESS(k[0] >= 0 && static_cast<size_t>(k[0]) < x.size()); FIT_UNLESS(ax * ax <= 1e6L); oc = run([&] { x *= x[static_cast<size_t>(k[0])]; }); }
+    OP("DivEqE")
+    {
+      SKIP_UNLESS(k[0] >= 0 && static_cast<size_t>(k[0]) < x.size() && x[static_cast<size_t>(k[0])] != 0);
+      for (const auto& e : x) ok = ok && divides(e, x[static_cast<size_t>(k[0])]);
+      FIT_UNLESS(ok);
+      oc = run([&] { x /= x[static_cast<size_t>(k[0])]; });
     }
     OP("Add") { oc = run([&] { r = jv(x + y).j(); }); }
     OP("Sub") { oc = run([&] { r = jv(x - y).j(); }); }
@@ -514,6 +526,12 @@ template<class T> struct Runner
           call(scal[i], "a", "-", "-", {s});
           ensure("a", v);
         }
+      for (const char* op : {"AddEqE", "SubEqE", "MulEqE", "DivEqE"})
+        for (long i = 0; i < static_cast<long>(v.size()); ++i)
+        {
+          call(op, "a", "-", "-", {i});
+          ensure("a", v);
+        }
       for (long nrep = 0; nrep <= 3; ++nrep) call("Rep", "a", "-", "-", {nrep});
     }
   }
@@ -587,6 +605,18 @@ template<class T> struct Runner
     for (long f = -6; f <= 6; ++f)
       for (long t = -6; t <= 6; ++t)
         for (long b = 1; b <= 4; ++b) call("Seq", "-", "-", "-", {f, t, b});
+    // large steps: spans that are / are not multiples of the step, one short of it, inside and outside the 1% zone
+    const long steps[] = {5, 7, 49, 50, 51, 64, 99, 100, 101, 128, 150, 199, 200, 250, 500, 999, 1000};
+    const long froms[] = {0, -300, 17};
+    for (long b : steps)
+      for (long f : froms)
+        for (long m : {0L, 1L, 2L, 5L, 63L})
+          for (long e : {0L, 1L, b / 100, b / 100 + 1, b / 2, b - b / 100 - 1, b - b / 100, b - 2, b - 1})
+            for (long d : {1L, -1L})
+            {
+              if (e < 0 || e >= b) continue;
+              call("Seq", "-", "-", "-", {f, f + d * (m * b + e), b});
+            }
   }
 
   // ---------------------------------------------------------------- random histories
@@ -655,10 +685,22 @@ template<class T> struct Runner
         {
           const V& v = regs[x];
           long s = (!v.empty() && rng.chance(2, 3)) ? static_cast<long>(v[rng.below(v.size())]) : rng.range(-5, 5);
-          call(s1[rng.below(sizeof s1 / sizeof *s1)], x, "-", "-", {s});
+          static const char* e1[] = {"AddEqE", "SubEqE", "MulEqE", "DivEqE"};
+          if (!v.empty() && rng.chance(1, 4)) call(e1[rng.below(4)], x, "-", "-", {static_cast<long>(rng.below(v.size()))});
+          else call(s1[rng.below(sizeof s1 / sizeof *s1)], x, "-", "-", {s});
         }
         else if (pick < 58) call("Rep", x, "-", "-", {rng.range(0, 4)});
-        else if (pick < 61) call("Seq", "-", "-", "-", {rng.range(-50, 50), rng.range(-50, 50), rng.range(1, 7)});
+        else if (pick < 61)
+        {
+          if (rng.coin()) call("Seq", "-", "-", "-", {rng.range(-50, 50), rng.range(-50, 50), rng.range(1, 7)});
+          else
+          {
+            long b = rng.chance(1, 3) ? rng.range(1, 1000) : (rng.coin() ? 100 * rng.range(1, 10) : rng.range(50, 130));
+            long f = rng.range(-2000, 2000), m = rng.range(0, 64);
+            long e = rng.chance(1, 3) ? 0 : (rng.coin() ? b - 1 - rng.range(0, b / 50) : rng.range(0, b - 1));
+            call("Seq", "-", "-", "-", {f, f + (rng.coin() ? 1 : -1) * (m * b + e), b});
+          }
+        }
         else if (pick < 88)
         {
           std::string op = b2[rng.below(sizeof b2 / sizeof *b2)];
